@@ -1520,6 +1520,215 @@ def suite_scopes(exe, tier, seed):
             "bound": f"{n_prog} generated functions of 4..15 actions (seeded); 5 parameter lists x {{function, template}} for the collision report", "samples": samples, "violations": viol}
 
 
+DET_DEFS = {
+    "fdead": """function fdead(a, unused) {
+  var x = a;
+  if (a > 0) {
+    var x = 2;
+    x = x + 1;
+  }
+  var dead = 5;
+  if (3 > 2) {
+    x = x + 2;
+  }
+  return x;
+}""",
+    "fhelper": """function fhelper(n) {
+  var acc = 0;
+  for (var i = 0; i < n; i++) {
+    acc += i;
+  }
+  return acc;
+}""",
+    "Num2Bits": """template Num2Bits(n) {
+  signal input in;
+  signal output out[n];
+  for (var i = 0; i < n; i++) {
+    out[i] <-- (in >> i) & 1;
+    out[i] * (out[i] - 1) === 0;
+  }
+}""",
+    "Leaf": """template Leaf(k) {
+  signal input a;
+  signal input d;
+  signal output b;
+  signal output q;
+  signal tmp;
+  var s = k;
+  if (k > 1) {
+    var s = 2;
+    s = s + 1;
+  }
+  b <-- a * a + fdead(k, 1) + s;
+  q <-- a / d;
+  tmp <== a * 2;
+}""",
+    "Mid": """template Mid(n) {
+  signal input in;
+  signal output out;
+  component leaf = Leaf(n);
+  leaf.a <== in;
+  leaf.d <== in + 1;
+  component nb = Num2Bits(300);
+  nb.in <== in;
+  var z = ~in;
+  out <== leaf.b + fhelper(n);
+}""",
+    "Top": """template Top() {
+  signal input x;
+  signal output y;
+  component m = Mid(3);
+  m.in <== x;
+  var t = 0;
+  if (t == 0) {
+    t = 1;
+  }
+  y <== m.out + t;
+}""",
+}
+DET_EXTRA = {
+    "Unrelated": """template Unrelated(p) {
+  signal input u;
+  signal output v;
+  var w = p;
+  v <-- u * u * u;
+}""",
+    "funrelated": """function funrelated(a) {
+  var b = a;
+  var c = 3;
+  return b;
+}""",
+}
+
+
+def det_project(d, order_a, order_b, extra=(), drop=()):
+    """two files; returns {definition name: (file, first line, last line)}"""
+    defs = dict(DET_DEFS)
+    defs.update({k: DET_EXTRA[k] for k in extra})
+    where = {}
+    for (fname, order, tail) in (("a.circom", order_a, ""), ("b.circom", order_b, "component main = Top();\n")):
+        lines = ["pragma circom 2.0.0;"] + (['include "a.circom";'] if fname == "b.circom" else [])
+        for name in order:
+            if name in drop:
+                continue
+            body = defs[name].split("\n")
+            where[name] = (fname, len(lines) + 1, len(lines) + len(body))
+            lines += body
+        open(os.path.join(d, fname), "w").write("\n".join(lines) + "\n" + tail)
+    return where
+
+
+def det_findings(exe, d, files, where):
+    """multiset of findings, each keyed by the definition it lies in and by positions relative to that definition"""
+    from collections import Counter
+    sar = os.path.join(d, "det.sarif")
+    if os.path.exists(sar):
+        os.unlink(sar)
+    rc, out, err = run_cli(exe, ["-l", "info", "--sarif-file", sar] + files, d)
+    if rc is None or rc not in (0, 1) or "panicked" in err:
+        return None, f"the tool aborted or hung (exit {rc})"
+    try:
+        results = json.load(open(sar))["runs"][0]["results"] if os.path.exists(sar) else []
+    except Exception as e:
+        return None, f"unreadable SARIF ({e})"
+    def rel(loc):
+        uri = loc["physicalLocation"]["artifactLocation"]["uri"]
+        f = os.path.basename(uri)
+        reg = loc["physicalLocation"]["region"]
+        ln = reg.get("startLine")
+        for name, (wf, lo, hi) in where.items():
+            if wf == f and lo <= ln <= hi:
+                return (name, ln - lo, reg.get("startColumn"), reg.get("endLine", ln) - lo, reg.get("endColumn"))
+        return (f, ln, reg.get("startColumn"), reg.get("endLine"), reg.get("endColumn"))
+    c = Counter()
+    for r in results:
+        prim = tuple(sorted(rel(l) for l in r.get("locations", [])))
+        sec = tuple(sorted(rel(l) for l in r.get("relatedLocations", [])))
+        c[(r.get("ruleId"), r.get("level"), r["message"]["text"], prim, sec)] += 1
+    return c, None
+
+
+def suite_determinism(exe, tier, seed):
+    """C17 (BOUNDED): the displayed findings are a function of the sources"""
+    import random
+    from collections import Counter
+    viol, samples = [], []
+    evals = nontrivial = 0
+    d = tempfile.mkdtemp(prefix="vx-e2e-")
+    def add(ob, inp, what):
+        if len(viol) < 20 and not any(v["obligation"] == f"e2e|determinism|{ob}" for v in viol):
+            viol.append({"unit": "e2e", "fn": "whole tool", "obligation": f"e2e|determinism|{ob}", "props": ["C17"], "input": inp, "what": what,
+                         "replay": "python3 run/e2e.py determinism quick 0"})
+    def diff(a, b):
+        return {"only_first": sorted(map(str, (a - b).elements()))[:4], "only_second": sorted(map(str, (b - a).elements()))[:4]}
+    try:
+        base_a, base_b = ["fdead", "fhelper", "Num2Bits", "Leaf"], ["Mid", "Top"]
+        where = det_project(d, base_a, base_b)
+        ref, e = det_findings(exe, d, ["a.circom", "b.circom"], where)
+        evals += 1
+        if ref is None:
+            add("run", {}, "reference run: " + e)
+            raise StopIteration
+        samples.append({"run": "reference", "findings": sum(ref.values()), "kinds": sorted({k[0] for k in ref})})
+        if sum(ref.values()) < 10:
+            raise RuntimeError("fixture produces too few findings to be a meaningful reference")
+        # (1) the same command again: every process seeds its hash maps afresh
+        for k in range(4 if tier == "quick" else 25):
+            got, e = det_findings(exe, d, ["a.circom", "b.circom"], where)
+            evals += 1; nontrivial += 1
+            if got is None:
+                add("run", {"repeat": k}, f"repeat {k}: {e}")
+            elif got != ref:
+                add("repeat", {"repeat": k, "difference": diff(ref, got)}, f"the same command displayed different findings on run {k + 2}: {diff(ref, got)}")
+        # (2) the definitions of each file in another order; (3) the files in another order on the command line
+        rng = random.Random(seed)
+        perms = [(list(reversed(base_a)), list(reversed(base_b)))]
+        for _ in range(2 if tier == "quick" else 12):
+            pa, pb = base_a[:], base_b[:]
+            rng.shuffle(pa); rng.shuffle(pb)
+            perms.append((pa, pb))
+        for (pa, pb) in perms:
+            w2 = det_project(d, pa, pb)
+            for files in (["a.circom", "b.circom"], ["b.circom", "a.circom"]):
+                got, e = det_findings(exe, d, files, w2)
+                evals += 1; nontrivial += 1
+                if got is None:
+                    add("run", {"order_a": pa, "order_b": pb, "files": files}, e)
+                elif got != ref:
+                    add("reorder", {"order_a": pa, "order_b": pb, "files": files, "difference": diff(ref, got)},
+                        f"with the definitions in the order {pa} / {pb} and the files given as {files} the findings of some definition differ (positions taken relative to the definition): {diff(ref, got)}")
+        # (4) unrelated definitions added; an unreferenced definition removed
+        for (extra_a, extra_b) in ((["Unrelated"], []), ([], ["funrelated"]), (["funrelated", "Unrelated"], [])):
+            w3 = det_project(d, extra_a + base_a, base_b + extra_b, extra=extra_a + extra_b)
+            got, e = det_findings(exe, d, ["a.circom", "b.circom"], w3)
+            evals += 1; nontrivial += 1
+            if got is None:
+                add("run", {"extra": extra_a + extra_b}, e)
+            else:
+                mine = Counter({k: v for k, v in got.items() if not any(p and p[0] in DET_EXTRA for p in k[3])})
+                if mine != ref:
+                    add("unrelated-added", {"extra": extra_a + extra_b, "difference": diff(ref, mine)},
+                        f"adding the unrelated definitions {extra_a + extra_b} changed the findings of the others: {diff(ref, mine)}")
+        w4 = det_project(d, base_a, base_b, drop=("fhelper",))   # referenced by Mid: its removal may change Mid's findings only
+        w5 = det_project(d, ["fdead", "fhelper", "Num2Bits", "Leaf", "Unrelated"], base_b, extra=["Unrelated"])
+        a5, e = det_findings(exe, d, ["a.circom", "b.circom"], w5)
+        w6 = det_project(d, ["fdead", "fhelper", "Num2Bits", "Leaf"], base_b)
+        a6, e2 = det_findings(exe, d, ["a.circom", "b.circom"], w6)
+        evals += 2; nontrivial += 1
+        if a5 is not None and a6 is not None:
+            rest = Counter({k: v for k, v in a5.items() if not any(p and p[0] in DET_EXTRA for p in k[3])})
+            if rest != a6:
+                add("unrelated-removed", {"difference": diff(rest, a6)}, f"removing the unreferenced template `Unrelated` changed the findings of the others: {diff(rest, a6)}")
+    except StopIteration:
+        pass
+    finally:
+        shutil.rmtree(d, ignore_errors=True)
+    return {"unit": "e2e-determinism", "evaluations": evals, "distinct_nontrivial": nontrivial, "exhaustive": False,
+            "rule": "the real CLI (-l info, SARIF) on a two-file project with six definitions that call and instantiate each other and carry findings of a dozen kinds: the multiset of findings (rule id, level, message, primary and related regions taken relative to the definition they lie in) is the same when the command is repeated (fresh hasher seeds per process), when the definitions of each file are permuted, when the files are named in the other order, when unrelated definitions are added, and when an unreferenced definition is removed",
+            "bound": ("5" if tier == "quick" else "26") + " runs of the same command; " + ("3" if tier == "quick" else "13") + " permutations x 2 file orders; 3 additions and 1 removal of unrelated definitions",
+            "samples": samples, "violations": viol}
+
+
 def main():
     suite, tier, seed = sys.argv[1], (sys.argv[2] if len(sys.argv) > 2 else "quick"), int(sys.argv[3]) if len(sys.argv) > 3 else 0
     try:
@@ -1527,7 +1736,7 @@ def main():
     except Exception as e:
         print(json.dumps({"error": str(e)}))
         return
-    r = {"tuples": suite_tuples, "output": suite_output, "values": suite_values, "curves": suite_curves, "includes": suite_includes, "totality": suite_totality, "positions": suite_positions, "sigassign": suite_sigassign, "scopes": suite_scopes}[suite](exe, tier, seed)
+    r = {"tuples": suite_tuples, "output": suite_output, "values": suite_values, "curves": suite_curves, "includes": suite_includes, "totality": suite_totality, "positions": suite_positions, "sigassign": suite_sigassign, "scopes": suite_scopes, "determinism": suite_determinism}[suite](exe, tier, seed)
     print(json.dumps(r))
 
 if __name__ == "__main__":
